@@ -25,6 +25,13 @@ class VTypeOf(V):
         self.exc = exc
 
 
+class VPyFunc(V):
+    """An engine-level helper callable bound in the environment (e.g. the value lookup of a desugared items() loop)."""
+
+    def __init__(self, fn):
+        self.fn = fn
+
+
 class VMatch(V):
     """Result of re.match: matched (Bool), groups gid -> (participated Bool, value String term), names name -> gid."""
 
@@ -35,6 +42,11 @@ class VMatch(V):
 class VSuper(V):
     def __init__(self, recv, module, cls):
         self.recv, self.module, self.cls = recv, module, cls
+
+
+def split_tag_effect(text):
+    t = text.lstrip()
+    return t.startswith("[") and "effect" in t[: t.index("]")]
 
 
 def kind_of(t):
@@ -369,6 +381,14 @@ class Dyn(Calls):
         return super().get_attr(base, name, node)
 
     def call_method(self, recv, name, args, kwargs, node):
+        if isinstance(recv, VObj):
+            top = self.reg.contracts.get(self.fid)
+            alt = getattr(self.reg, (top.labels.get("obj_method_hooks") or ""), None) if top is not None and top.labels.get("obj_method_hooks") else None
+            if alt and name in alt:
+                # this contract uses its own summary of the method (e.g. a partition's merge parent seen from a child)
+                if not self.spec_mode and not self.branch(recv.t != PyNone):
+                    raise PyRaise(VExc("AttributeError", []))
+                return alt[name](self, recv, args, kwargs)
         if isinstance(recv, VMatch):
             if not self.spec_mode and not self.branch(recv.matched):
                 raise PyRaise(VExc("AttributeError", []))   # None.group(...)
@@ -403,7 +423,7 @@ class Dyn(Calls):
                 tys.add(repr(self.type_of(v)))
             except Unsupported:
                 tys.add("?")
-        c = self.frame.fi and self.reg.contracts.get(self.frame.fi.fid)
+        c = self.frame_contract()
         force = c.labels.get("dict_literals_dynamic") if c else False
         if len(tys) > 1 or force or any(isinstance(v, (VCont, VEnt)) or v is VNone for v in vals):
             self.materialize(box, TDict(self.type_of(keys[0]), TObj()))
@@ -739,6 +759,8 @@ class Dyn(Calls):
         return super().set_attr(base, name, v)
 
     def call(self, fv, args, kwargs, node=None):
+        if isinstance(fv, VPyFunc):
+            return fv.fn(*args)
         if isinstance(fv, (VStr, VInt, VBool, VReal, VRec, VTuple)) or fv is VNone:
             if self.spec_mode:
                 raise Unsupported("call of a non-callable in a specification")
@@ -907,7 +929,7 @@ class Dyn(Calls):
             if not any(isinstance(x, RX.End) for x in enc.nodes):
                 lang = z3.Concat(lang, z3.Full(z3.ReSort(z3.StringSort())))
             self.assume(matched == z3.InRe(s.t, lang))
-            c = self.reg.contracts.get(self.frame.fi.fid) if self.frame and self.frame.fi else None
+            c = self.frame_contract()
             for hint in (c.labels.get("regex_hints", []) if c else []):
                 if not hint:
                     continue
@@ -995,11 +1017,6 @@ class Dyn(Calls):
             raise Unsupported("regular expression: %s" % e)
         return VBool(z3.InRe(sv.t, RX.language(nodes)))
 
-    def bi_list(self, args, kwargs, node):
-        if args and "list" in self.reg.constructors:
-            return self.reg.constructors["list"](self, args, kwargs)
-        return super().bi_list(args, kwargs, node)
-
     def bi_tuple(self, args, kwargs, node):
         if "tuple" in self.reg.constructors:
             return self.reg.constructors["tuple"](self, args, kwargs)
@@ -1048,6 +1065,15 @@ class Dyn(Calls):
 
     def bi_getattr(self, args, kwargs, node):
         o, nm = args[0], args[1]
+        nmv = z3.simplify(nm.t) if isinstance(nm, VStr) else None
+        if isinstance(o, VObj) and nmv is not None and z3.is_string_value(nmv) and nmv.as_string() in self.reg.attrs:
+            # a declared attribute read through getattr: hasattr decides between the attribute and the default / AttributeError
+            has = z3.Function("has_attr", ObjSort, ObjSort, z3.BoolSort())
+            if self.branch(has(o.t, self.box(nm))):
+                return self.get_attr(o, nmv.as_string(), node)
+            if len(args) == 3:
+                return args[2]
+            raise PyRaise(VExc("AttributeError", []))
         if isinstance(o, VObj) and len(args) == 2:
             has = z3.Function("has_attr", ObjSort, ObjSort, z3.BoolSort())
             key = self.box(nm)
@@ -1263,6 +1289,118 @@ class Dyn(Calls):
         return super().slice(base, sl)
 
 
-def split_tag_effect(text):
-    t = text.lstrip()
-    return t.startswith("[") and "effect" in t[: t.index("]")]
+
+    # ------------------------------------------------------------------ for (k, v) in d.items() / for k in <object>
+    def st_For(self, s):
+        it = s.iter
+        if isinstance(it, ast.Call) and isinstance(it.func, ast.Attribute) and it.func.attr in ("items", "keys", "values") and not it.args and not self.spec_mode:
+            src = self.ev(it.func.value)
+            keys, lookup = None, None
+            if isinstance(src, VObj) and (self.st.ghost.get("$boxed") or {}).get(z3.simplify(src.t).get_id()) is None:
+                if not self.branch(src.t != PyNone):
+                    raise PyRaise(VExc("AttributeError", []))
+                keys = self.obj_as_list(src)           # iterating a mapping yields its keys
+                kl = self.cont(keys)
+                if kl.idx is None:
+                    # ... each key once: the position of a key in the iteration is a function of the key (ghost inverse for pos())
+                    ln_, item_ = self.seq_ufs()
+                    sidx = z3.Function("seq_index", ObjSort, ObjSort, z3.IntSort())
+                    idxarr = self.fresh("keyidx", z3.ArraySort(ObjSort, z3.IntSort()))
+                    t_ = src.t
+                    self.add_universal([TObj()], lambda x: idxarr[x] == sidx(t_, x), "key-position")
+                    self.add_universal([TInt], lambda i: z3.Implies(z3.And(0 <= i, i < ln_(t_)), sidx(t_, item_(t_, i)) == i), "mapping-keys-are-distinct")
+                    kl.idx = idxarr
+                _, val = self.dict_has_uf()
+                lookup = lambda k: VObj(val(src.t, k.t if isinstance(k, VObj) else self.box(k)))
+            elif isinstance(src, VCont) and isinstance(self.cont(src), DictV) and self.cont(src).order is not None:
+                d = self.cont(src)
+                keys = self.new_box(d.order)
+                lookup = lambda k: self.from_term(d.val[self.to_term(k, d.ty.k)], d.ty.v)
+            elif isinstance(src, VCont) and isinstance(self.cont(src), EmptyV):
+                self.exec_block(s.orelse)
+                return
+            if keys is not None:
+                mode = it.func.attr
+                kname = "_loop_key%d" % self._bump()
+                if mode == "items" and isinstance(s.target, (ast.Tuple, ast.List)) and len(s.target.elts) == 2:
+                    pre = [ast.Assign(targets=[s.target.elts[0]], value=ast.Name(id=kname, ctx=ast.Load())),
+                           ast.Assign(targets=[s.target.elts[1]], value=ast.Call(func=ast.Name(id="__lookup__", ctx=ast.Load()), args=[ast.Name(id=kname, ctx=ast.Load())], keywords=[]))]
+                elif mode == "keys":
+                    pre = [ast.Assign(targets=[s.target], value=ast.Name(id=kname, ctx=ast.Load()))]
+                elif mode == "values":
+                    pre = [ast.Assign(targets=[s.target], value=ast.Call(func=ast.Name(id="__lookup__", ctx=ast.Load()), args=[ast.Name(id=kname, ctx=ast.Load())], keywords=[]))]
+                else:
+                    raise Unsupported("for-loop target over .%s()" % mode)
+                self.st.env["__lookup__"] = VPyFunc(lookup)
+                loop2 = ast.For(target=ast.Name(id=kname, ctx=ast.Store()), iter=s.iter, body=pre + list(s.body), orelse=s.orelse)
+                for n_ in ast.walk(loop2):
+                    ast.copy_location(n_, s)
+                ast.fix_missing_locations(loop2)
+                ordinal = self.loop_ordinal_of(self.frame.fi, s)
+                return self.loop(loop2, loop2.target, keys, ordinal=ordinal)
+        return super().st_For(s)
+
+    # ------------------------------------------------------------------ sorted(), list(set), set.update(keys)
+    def bi_sorted(self, args, kwargs, node):
+        """sorted(c) of a duplicate-free collection of strings (set, dict keys, duplicate-free list): a duplicate-free list with the same
+        members, strictly increasing."""
+        if kwargs or len(args) != 1 or not isinstance(args[0], VCont):
+            raise Unsupported("sorted(...) of this shape")
+        c = self.cont(args[0])
+        if isinstance(c, EmptyV):
+            return self.new_box(EmptyV("list"))
+        if isinstance(c, DictV):
+            ety, member, cnt = c.ty.k, (lambda k, h=c.has: h[k]), c.count
+        elif isinstance(c, SetV):
+            ety, member, cnt = c.ty.e, (lambda k, m=c.mem: m[k]), c.count
+        elif isinstance(c, ListV) and c.idx is not None:
+            arr0, n0, idx0 = c.arr, c.n, c.idx
+            ety, member, cnt = c.ty.e, (lambda k: z3.And(0 <= idx0[k], idx0[k] < n0, arr0[idx0[k]] == k)), c.n
+        else:
+            raise Unsupported("sorted of a collection that may hold duplicates")
+        if ety is not TStr:
+            raise Unsupported("sorted of non-string elements")
+        arr = self.fresh("sorted", z3.ArraySort(z3.IntSort(), ety.sort()))
+        idx = self.fresh("sortedidx", z3.ArraySort(ety.sort(), z3.IntSort()))
+        n = self.fresh("nsorted", z3.IntSort())
+        self.assume(z3.And(n >= 0, n == cnt) if not isinstance(c, SetV) else n >= 0)
+        lst = ListV(TList(ety), arr, n, idx)
+        self.injlist_facts(lst, member)
+        self.add_universal([TInt, TInt], lambda i, j: z3.Implies(z3.And(0 <= i, i < j, j < n), arr[i] < arr[j]), "sorted-increasing")
+        lst.sorted = True
+        return self.new_box(lst)
+
+    def sp_is_sorted(self, n):
+        l = self.cont(self.ev(n.args[0]))
+        if isinstance(l, EmptyV):
+            return VBool(True)
+        arr, n_ = l.arr, l.n
+        i = self.fresh("si", z3.IntSort())
+        j = self.fresh("sj", z3.IntSort())
+        self.touch(TInt, i)
+        self.touch(TInt, j)
+        if self.pol >= 0:
+            raise Unsupported("is_sorted in an assumed position")
+        return VBool(z3.Implies(z3.And(0 <= i, i < j, j < n_), arr[i] < arr[j]))
+
+    def bi_list(self, args, kwargs, node):
+        if args and isinstance(args[0], VCont) and isinstance(self.cont(args[0]), (SetV, DictV)):
+            return args[0]     # list(set) / list(dict): the same members (order unspecified; only used as the argument of sorted / membership)
+        if args and "list" in self.reg.constructors:
+            return self.reg.constructors["list"](self, args, kwargs)
+        return super().bi_list(args, kwargs, node)
+
+    def m_SetV_update(self, recv, args, kwargs):
+        o = self.cont(args[0]) if isinstance(args[0], VCont) else None
+        if isinstance(o, DictV):
+            c = self.cont(recv)
+            mem2 = self.fresh("union", c.mem.sort())
+            a, b = c.mem, o.has
+            self.add_universal([c.ty.e], lambda x: mem2[x] == z3.Or(a[x], b[x]), "set-union-keys")
+            cnt = self.fresh("unioncount", z3.IntSort())
+            self.assume(z3.And(cnt >= c.count, cnt >= o.count, cnt <= c.count + o.count))
+            self.set_cont(recv, c.replace(mem=mem2, count=cnt))
+            return VNone
+        if isinstance(o, EmptyV):
+            return VNone
+        return super().m_SetV_update(recv, args, kwargs)
